@@ -129,15 +129,22 @@
                                                       Stackoverflow there: the model is pessimistic)
    native_body NStop AUB (conversions)                PROVED for every native of the menu
    run_function `code_len = 0` APanic                 PROVED (instruction pointer inside the code)
-   run_function `reenter` RStop                       excluded by the HYPOTHESIS reenter_ok (contract of the nested
-                                                      run: no abort, ninv again, no object dies); NOT discharged by
-                                                      induction over the nesting depth
+   run_function `reenter` RStop                       for the VM: the HYPOTHESIS reenter_ok (contract of the nested run:
+                                                      no abort, ninv again, no object dies).  For the CHECKED VM
+                                                      (C04VmChecked.v: the model plus runtime checks that stop with
+                                                      AUnmodelled) the contract is PROVED by induction over the
+                                                      nesting depth (run_at_c_contract); a run of the VM on which no
+                                                      check fails is the checked run (C04VmAgree.run_agrees), so
+                                                      C04VmFinal.compiled_run_no_abort_unless_check needs no
+                                                      hypothesis about intermediate states or nested runs
    native_minmax / native_sorted / minmax_go / sort_keys NStop (incl. ACrash of vcmp, snapshot, make_row,
         stable_sort, insert_all)                      PROVED unreachable (C04VmProofs6b.call_native_ok0), under
                                                       reenter_ok for the key-function callbacks
    loop `O => RStop ADiverge`                         PROVED (loop_no_abort: fuel >= st_rem, given re_paid; run_no_abort
                                                       uses VmProofs.run_at_paid)
-   run_at `O => RStop ADiverge` (depth 130)           inside reenter_ok (hypothesis)
+   run_at `O => RStop ADiverge` (depth 130)           inside reenter_ok (hypothesis); in the checked VM a check
+                                                      (run_at_c 0 stops with AUnmodelled): that the call stack of 256
+                                                      frames keeps the nesting below 130 is NOT proved
    no_reenter AUnmodelled                             not part of [run]
 
    Preservation of the non-structural condition heap_acyclic: every instruction except SetProperty, AppendTable
